@@ -190,6 +190,39 @@ func genSys(g *GenCtx) {
 	}
 }
 
+// genSysSmall (suite C09sys, run by C09's check): a few lossy cases with an outage, so that timeout
+// retransmissions and their acknowledgements occur while the shadow tubes listen
+func genSysSmall(g *GenCtx) {
+	n := 4
+	if g.Thorough() {
+		n = 12 / g.Parts
+	}
+	for i := 0; i < n; i++ {
+		g.Op("new sys9-%d-%d", g.Part, i)
+		st := 50 + g.R.Intn(200)
+		g.Op("net %d %d %d %d %d %d-%d", g.R.U64()%1000000, Pick(g.R, []int{10, 20}), Pick(g.R, []int{0, 5}), Pick(g.R, []int{0, 10}),
+			Pick(g.R, []int{5, 30}), st, st+Pick(g.R, []int{500, 900}))
+		nt := 1 + g.R.Intn(3)
+		g.Op("tubes %d", nt)
+		for t := 0; t < nt; t++ {
+			for _, side := range []string{"c", "s"} {
+				var sizes []string
+				k := 4 + g.R.Intn(12)
+				if side == "s" {
+					k = 1 + g.R.Intn(3) // unequal volume in the two directions
+				}
+				for j := 0; j < k; j++ {
+					sizes = append(sizes, strconv.Itoa(Pick(g.R, []int{1, 10, 100, 1000, 1000, 5000})))
+				}
+				g.Op("w %s %d %d %s", side, t, g.R.U64()%1000000, strings.Join(sizes, ","))
+			}
+		}
+		// completeness is C08's business (and subject to its known finding F28): here only what is
+		// delivered matters - strays on the shadow tubes, streams that stop being prefixes
+		g.Op("run 9000 any")
+	}
+}
+
 // ---------------------------------------------------------------- runner
 
 type wprog struct {
@@ -260,9 +293,21 @@ func runOne(c *sysCase) []string {
 		ct[i] = t
 		byID[t.GetID()] = i
 	}
-	acc := make(chan tubes.Tube, c.ntubes)
+	// shadow tubes: one unreliable tube per reliable one.  Identifiers are handed out per class, so
+	// they carry the same ids.  Nobody ever writes on them: whatever one of their readers receives
+	// was written on another tube (trace line `stray`).
+	var shadows []*tubes.Unreliable
+	for i := 0; i < c.ntubes; i++ {
+		u, err := mc.CreateUnreliableTube(tubes.TubeType(1 + i))
+		if err != nil {
+			tr.add("note create-failed")
+			return tr.lines
+		}
+		shadows = append(shadows, u)
+	}
+	acc := make(chan tubes.Tube, 2*c.ntubes)
 	go func() {
-		for i := 0; i < c.ntubes; i++ {
+		for i := 0; i < 2*c.ntubes; i++ {
 			t, err := ms.Accept()
 			if err != nil {
 				return
@@ -270,9 +315,13 @@ func runOne(c *sysCase) []string {
 			acc <- t
 		}
 	}()
-	for i := 0; i < c.ntubes; i++ {
+	for i := 0; i < 2*c.ntubes; i++ {
 		select {
 		case t := <-acc:
+			if u, ok := t.(*tubes.Unreliable); ok {
+				shadows = append(shadows, u)
+				continue
+			}
 			st[byID[t.GetID()]] = t.(*tubes.Reliable)
 		case <-time.After(time.Until(deadline)):
 			tr.add("note accept-timeout")
@@ -286,6 +335,28 @@ func runOne(c *sysCase) []string {
 
 	var wg sync.WaitGroup
 	done := make(chan struct{})
+	for k, u := range shadows {
+		k, u := k, u
+		go func() {
+			buf := make([]byte, 1<<16)
+			for {
+				select {
+				case <-done:
+					return
+				default:
+				}
+				u.SetReadDeadline(time.Now().Add(50 * time.Millisecond))
+				n, err := u.Read(buf)
+				if err == nil {
+					tr.add("stray u%d/%d %s", u.GetID(), k, HexOrDash(buf[:n]))
+					continue
+				}
+				if !errors.Is(err, os.ErrDeadlineExceeded) {
+					return
+				}
+			}
+		}()
+	}
 	endpointOf := func(side string, i int) *tubes.Reliable {
 		if side == "c" {
 			return ct[i]
